@@ -5,8 +5,9 @@ file.go on every run, Gen/TransStore.lean), against the store model `C07_ancesto
 -/
 import Neutrino.Props.C07
 import Neutrino.Lemmas.TransStore
+import Neutrino.Lemmas.TransFile
 namespace Neutrino.Store
-open Neutrino.Gen.TransStore Neutrino.GoInt
+open Neutrino.Gen.TransStore Neutrino.Gen.TransFile Neutrino.GoInt
 
 /-- **`blockHeaderStore.FetchHeaderAncestors` as the code spells it is the model's
 `fetchAncestors`** over the durable state (index lookup and range read of that state), for every
@@ -59,5 +60,16 @@ example : blockHeaderStore_FetchHeaderAncestors 2 7 (fun _ => (5, false)) (fun l
     = ([], 3, false) := by decide
 example : (blockHeaderStore_FetchHeaderAncestors 6 7 (fun _ => (5, false)) (fun lo hi => ([], decide (hi < lo)))).2.2 = true := by
   decide
+
+/-- **`HeaderType.Size` is the model's entry width**: the width all offsets of the store model are computed
+with (`width`: 80 bytes per entry of the block header file, 32 per entry of the filter header file) is what
+the code's own function answers for the two header types, and any other header type is an error. -/
+theorem C07_trans_HeaderType_Size (w : Which) (t : Atom) :
+    HeaderType_Size (typeOf w) = (((width w : Nat) : Int), false) ∧
+    ((∀ w', t ≠ typeOf w') → HeaderType_Size t = (0, true)) :=
+  ⟨trans_headerTypeSize w, trans_headerTypeSize_unknown t⟩
+
+example : HeaderType_Size 0 = (80, false) ∧ HeaderType_Size 1 = (32, false) ∧ HeaderType_Size 2 = (0, true) := by decide
+example : ∀ w', (2 : Atom) ≠ typeOf w' := by intro w'; cases w' <;> decide
 
 end Neutrino.Store
